@@ -251,32 +251,46 @@ Proof.
     + apply IH. exact H.
 Qed.
 
-Lemma link_items_err r id m items : forall e res x,
-  link_items r id m items e res = inr x ->
-  x = EUndeclaredOpRef /\ exists n, In n (imports_in items) /\ bind_spec e r n = None.
+(* a failed link step: the resolver's answers before the failing import are registered (and were
+   asked for undefined names only); some import has neither a definition nor a resolver address *)
+Lemma link_items_err r id m items : forall e res e1 res1,
+  link_items r id m items e res = inr (e1, res1) ->
+  exists new, res1 = res ++ new /\ e1 = apply_new e new /\ fresh_answers e r new /\
+    (forall k, bind_spec e1 r k = bind_spec e r k) /\
+    exists n, In n (imports_in items) /\ bind_spec e r n = None.
 Proof.
-  induction items as [|it rest IH]; intros e res x H; simpl in H; [discriminate|].
+  induction items as [|it rest IH]; intros e res e1 res1 H; simpl in H; [discriminate|].
   unfold imports_in in *. simpl.
   destruct (ik it) eqn:Hk; simpl.
   - destruct (assoc e (iname it)) as [d|] eqn:He.
-    + destruct (link_items r id m rest e res) as [[[e1 res1] bs1]|y] eqn:Hl; [discriminate|].
-      inversion H; subst. destruct (IH _ _ _ Hl) as [H1 (n & H2 & H3)].
-      split; [exact H1|]. exists n. split; [right; exact H2 | exact H3].
+    + destruct (link_items r id m rest e res) as [[[e2 res2] bs2]|y] eqn:Hl; [discriminate|].
+      inversion H; subst. destruct (IH _ _ _ _ Hl) as (new & H1 & H2 & H3 & H4 & n & H5 & H6).
+      exists new. splits5; auto. exists n. split; [right; exact H5 | exact H6].
     + destruct (r (iname it)) as [a|] eqn:Hr.
       * destruct (link_items r id m rest (fst (setup_global e (iname it) (DExt a))) (res ++ [(iname it, a)]))
-          as [[[e1 res1] bs1]|y] eqn:Hl; [discriminate|].
-        inversion H; subst. destruct (IH _ _ _ Hl) as [H1 (n & H2 & H3)].
-        split; [exact H1|]. exists n. split; [right; exact H2|].
-        rewrite <- (bind_spec_ext e r (iname it) a He Hr). exact H3.
-      * inversion H; subst. split; [reflexivity|]. exists (iname it). split; [left; reflexivity|].
+          as [[[e2 res2] bs2]|y] eqn:Hl; [discriminate|].
+        inversion H; subst. destruct (IH _ _ _ _ Hl) as (new & H1 & H2 & H3 & H4 & n & H5 & H6).
+        pose proof (bind_spec_ext e r (iname it) a He Hr) as Hext.
+        exists ((iname it, a) :: new). splits5.
+        -- rewrite H1, <- app_assoc. reflexivity.
+        -- exact H2.
+        -- intros k b [Hin|Hin].
+           ++ inversion Hin; subst. split; [exact He | exact Hr].
+           ++ destruct (H3 _ _ Hin) as [Hx Hy]. split; [|exact Hy]. rewrite setup_global_lookup in Hx.
+              destruct (Nat.eqb (iname it) k); [discriminate | exact Hx].
+        -- intro k. rewrite H4. apply Hext.
+        -- exists n. split; [right; exact H5|]. rewrite <- Hext. exact H6.
+      * inversion H; subst. exists []. rewrite app_nil_r.
+        splits5; try reflexivity; try (intros k b []).
+        exists (iname it). split; [left; reflexivity|].
         unfold bind_spec. rewrite He, Hr. reflexivity.
-  - destruct (link_items r id m rest e res) as [[[e1 res1] bs1]|y] eqn:Hl; [discriminate|].
-    inversion H; subst. apply (IH _ _ _ Hl).
-  - destruct (link_items r id m rest e res) as [[[e1 res1] bs1]|y] eqn:Hl; [discriminate|].
-    inversion H; subst. apply (IH _ _ _ Hl).
-  - apply (IH _ _ _ H).
-  - apply (IH _ _ _ H).
-  - apply (IH _ _ _ H).
+  - destruct (link_items r id m rest e res) as [[[e2 res2] bs2]|y] eqn:Hl; [discriminate|].
+    inversion H; subst. apply (IH _ _ _ _ Hl).
+  - destruct (link_items r id m rest e res) as [[[e2 res2] bs2]|y] eqn:Hl; [discriminate|].
+    inversion H; subst. apply (IH _ _ _ _ Hl).
+  - apply (IH _ _ _ _ H).
+  - apply (IH _ _ _ _ H).
+  - apply (IH _ _ _ _ H).
 Qed.
 
 Lemma imports_in_of m : imports_in (mitems m) = imports_of m.
@@ -333,20 +347,27 @@ Proof.
         -- intros n Hn. rewrite <- A4. apply C3. exact Hn.
 Qed.
 
-Lemma link_mods_err r ms : forall e res x,
-  link_mods r ms e res = inr x ->
-  x = EUndeclaredOpRef /\ exists m n, In m ms /\ In n (imports_of (lmd m)) /\ bind_spec e r n = None.
+Lemma link_mods_err r ms : forall e res e1 res1,
+  link_mods r ms e res = inr (e1, res1) ->
+  exists new, res1 = res ++ new /\ e1 = apply_new e new /\ fresh_answers e r new /\
+    (forall k, bind_spec e1 r k = bind_spec e r k) /\
+    exists m n, In m ms /\ In n (imports_of (lmd m)) /\ bind_spec e r n = None.
 Proof.
-  induction ms as [|m rest IH]; intros e res x H; simpl in H; [discriminate|].
-  destruct (link_items r (lid m) (lmd m) (mitems (lmd m)) e res) as [[[e1 res1] bs]|y] eqn:Hi.
-  - destruct (link_mods r rest e1 res1) as [[[e2 res2] all2]|y] eqn:Hm; [discriminate|].
+  induction ms as [|m rest IH]; intros e res e1 res1 H; simpl in H; [discriminate|].
+  destruct (link_items r (lid m) (lmd m) (mitems (lmd m)) e res) as [[[e2 res2] bs]|y] eqn:Hi.
+  - destruct (link_mods r rest e2 res2) as [[[e3 res3] all3]|y] eqn:Hm; [discriminate|].
     inversion H; subst.
     destruct (link_items_ok _ _ _ _ _ _ _ _ _ Hi) as (n1 & A1 & A2 & A3 & A4 & A5 & A6).
-    destruct (IH _ _ _ Hm) as [H1 (m' & n & H2 & H3 & H4)].
-    split; [exact H1|]. exists m', n. split; [right; exact H2|]. split; [exact H3|].
-    rewrite <- A4. exact H4.
-  - inversion H; subst. destruct (link_items_err _ _ _ _ _ _ _ Hi) as [H1 (n & H2 & H3)].
-    split; [exact H1|]. exists m, n. split; [left; reflexivity|]. split; assumption.
+    destruct (IH _ _ _ _ Hm) as (n2 & B1 & B2 & B3 & B4 & m' & n & H2 & H3 & H4).
+    exists (n1 ++ n2). splits5.
+    + rewrite B1, A1, app_assoc. reflexivity.
+    + rewrite B2, A2, apply_new_app. reflexivity.
+    + subst. apply fresh_answers_app; assumption.
+    + intro k. rewrite B4, A4. reflexivity.
+    + exists m', n. split; [right; exact H2|]. split; [exact H3|]. rewrite <- A4. exact H4.
+  - inversion H; subst.
+    destruct (link_items_err _ _ _ _ _ _ _ _ Hi) as (new & H1 & H2 & H3 & H4 & n & H5 & H6).
+    exists new. splits5; auto. exists m, n. split; [left; reflexivity|]. split; assumption.
 Qed.
 
 (* ------------------------------------------------------------ traces *)
@@ -418,23 +439,26 @@ Definition Inv (s : state) (tr : list (op * output)) : Prop :=
 Lemma Inv_init : Inv init [].
 Proof. intros _. split; [apply agree_nil | repeat split]. Qed.
 
-Lemma step_dead s o : dead s = true -> step s o = (s, OSkipped).
+Lemma step_dead am s o : dead s = true -> step am s o = (s, OSkipped).
 Proof. intro H. unfold step. rewrite H. reflexivity. Qed.
 
+(* the behaviour the property describes ([step true]: a rejected load has no effect) keeps the
+   invariant through EVERY step - successful, rejected load, failed link, interface-less link *)
 Lemma step_inv s tr o s' out :
-  Inv s tr -> step s o = (s', out) -> Inv s' (tr ++ [(o, out)]).
+  Inv s tr -> step true s o = (s', out) -> Inv s' (tr ++ [(o, out)]).
 Proof.
   intros HI Hs Hd'. unfold step in Hs.
   destruct (dead s) eqn:Hd.
   { inversion Hs; subst. rewrite Hd in Hd'. discriminate. }
   destruct (HI Hd) as (Ha & Hn & Hq & Hr).
   rewrite pubs_snoc, pending_snoc, redef_snoc, loads_in_snoc.
-  destruct o as [ds|n a|b|r].
+  destruct o as [ds|n a|b|r|r].
   - (* Load *)
     destruct (build ds) as [m|e] eqn:Hb.
     2:{ inversion Hs; subst. simpl in Hd'. discriminate. }
     destruct (load_items (nloads s) (mitems m) 0 (env s) (redef s)) as [e' [x|]] eqn:Hl.
-    { inversion Hs; subst. simpl in Hd'. discriminate. }
+    { (* rejected: nothing changes but the module counter *)
+      inversion Hs; subst. simpl. rewrite app_nil_r. repeat split; auto. rewrite Hn. lia. }
     inversion Hs; subst. simpl. rewrite Hb. repeat split.
     + rewrite <- Hn. eapply load_items_ok; [exact Hl | exact Ha].
     + rewrite Hn. lia.
@@ -444,22 +468,37 @@ Proof.
     + apply agree_setup. exact Ha.
     + rewrite Hn. lia.
   - inversion Hs; subst. simpl. rewrite app_nil_r. repeat split; auto. rewrite Hn. lia.
-  - destruct (link_mods r (to_link s) (env s) []) as [[[e' res] bs]|x] eqn:Hl.
-    2:{ inversion Hs; subst. simpl in Hd'. discriminate. }
-    inversion Hs; subst. simpl.
-    destruct (link_mods_ok _ _ _ _ _ _ _ Hl) as (new & A1 & A2 & _).
-    simpl in A1. subst. repeat split; auto.
-    + apply agree_apply_new. exact Ha.
-    + rewrite Hn. lia.
+  - destruct (link_mods r (to_link s) (env s) []) as [[[e' res] bs]|[e1 res1]] eqn:Hl.
+    + inversion Hs; subst. simpl.
+      destruct (link_mods_ok _ _ _ _ _ _ _ Hl) as (new & A1 & A2 & _).
+      simpl in A1. subst. repeat split; auto.
+      * apply agree_apply_new. exact Ha.
+      * rewrite Hn. lia.
+    + inversion Hs; subst. simpl.
+      destruct (link_mods_err _ _ _ _ _ _ Hl) as (new & A1 & A2 & _).
+      simpl in A1. subst. repeat split; auto.
+      * apply agree_apply_new. exact Ha.
+      * rewrite Hn. lia.
+  - destruct (link_mods r (to_link s) (env s) []) as [[[e' res] bs]|[e1 res1]] eqn:Hl.
+    + inversion Hs; subst. simpl.
+      destruct (link_mods_ok _ _ _ _ _ _ _ Hl) as (new & A1 & A2 & _).
+      simpl in A1. subst. repeat split; auto.
+      * apply agree_apply_new. exact Ha.
+      * rewrite Hn. lia.
+    + inversion Hs; subst. simpl.
+      destruct (link_mods_err _ _ _ _ _ _ Hl) as (new & A1 & A2 & _).
+      simpl in A1. subst. repeat split; auto.
+      * apply agree_apply_new. exact Ha.
+      * rewrite Hn. lia.
 Qed.
 
 Lemma run_from_inv h : forall s0 tr0 s tr,
-  Inv s0 tr0 -> run_from s0 h = (s, tr) -> Inv s (tr0 ++ tr).
+  Inv s0 tr0 -> run_from true s0 h = (s, tr) -> Inv s (tr0 ++ tr).
 Proof.
   induction h as [|o h IH]; intros s0 tr0 s tr HI Hr; simpl in Hr.
   - inversion Hr; subst. rewrite app_nil_r. exact HI.
-  - destruct (step s0 o) as [s1 out] eqn:Hs.
-    destruct (run_from s1 h) as [s2 tr2] eqn:Hr2.
+  - destruct (step true s0 o) as [s1 out] eqn:Hs.
+    destruct (run_from true s1 h) as [s2 tr2] eqn:Hr2.
     inversion Hr; subst.
     change (tr0 ++ (o, out) :: tr2) with (tr0 ++ [(o, out)] ++ tr2). rewrite app_assoc.
     eapply IH; [|exact Hr2]. eapply step_inv; eauto.
@@ -471,60 +510,132 @@ Proof.
   apply (run_from_inv h init [] s tr Inv_init Hr).
 Qed.
 
-Lemma run_from_app h1 : forall h2 s0,
-  run_from s0 (h1 ++ h2)
-  = let '(s1, t1) := run_from s0 h1 in let '(s2, t2) := run_from s1 h2 in (s2, t1 ++ t2).
+Lemma run_from_app am h1 : forall h2 s0,
+  run_from am s0 (h1 ++ h2)
+  = let '(s1, t1) := run_from am s0 h1 in let '(s2, t2) := run_from am s1 h2 in (s2, t1 ++ t2).
 Proof.
   induction h1 as [|o h1 IH]; intros h2 s0; simpl.
-  - destruct (run_from s0 h2); reflexivity.
-  - destruct (step s0 o) as [s1 out]. rewrite IH.
-    destruct (run_from s1 h1) as [s2 t2]. destruct (run_from s2 h2) as [s3 t3]. reflexivity.
+  - destruct (run_from am s0 h2); reflexivity.
+  - destruct (step am s0 o) as [s1 out]. rewrite IH.
+    destruct (run_from am s1 h1) as [s2 t2]. destruct (run_from am s2 h2) as [s3 t3]. reflexivity.
 Qed.
 
+(* ------------------------------------------------------------ which histories stay alive *)
+
+Definition builds (o : op) : Prop :=
+  match o with Load ds => exists m, build ds = inl m | _ => True end.
+
+Lemma step_alive am s o : dead s = false -> builds o -> dead (fst (step am s o)) = false.
+Proof.
+  intros Hd Hb. unfold step. rewrite Hd.
+  destruct o as [ds|n a|b|r|r]; simpl; try reflexivity.
+  - destruct Hb as [m Hb]. rewrite Hb.
+    destruct (load_items (nloads s) (mitems m) 0 (env s) (redef s)) as [e' [x|]]; reflexivity.
+  - destruct (link_mods r (to_link s) (env s) []) as [[[e' res] bs]|[e1 res1]]; reflexivity.
+  - destruct (link_mods r (to_link s) (env s) []) as [[[e' res] bs]|[e1 res1]]; reflexivity.
+Qed.
+
+Lemma run_from_alive am h : forall s, dead s = false -> Forall builds h ->
+  dead (fst (run_from am s h)) = false.
+Proof.
+  induction h as [|o h IH]; intros s Hd Hf; simpl; [exact Hd|].
+  inversion Hf; subst.
+  pose proof (step_alive am s o Hd H1) as Ha.
+  destruct (step am s o) as [s1 out]. simpl in Ha.
+  specialize (IH s1 Ha H2). destruct (run_from am s1 h) as [s2 t2]. exact IH.
+Qed.
+
+(* no load/link error ends a history: only a module that cannot even be built does *)
+Lemma alive_proof : forall h, Forall builds h -> dead (fst (run h)) = false.
+Proof. intros h Hf. apply run_from_alive; [reflexivity | exact Hf]. Qed.
+
 (* ------------------------------------------------------------ the property, on traces *)
+
+(* the bindings a link step reports, given the trace before it: one binding list per module loaded
+   since the previous completed link, in load order; every import of every such module is bound to
+   the definition loaded last before the step, else to the resolver's address; the resolver is
+   consulted only for names nobody defined *)
+Definition bound_spec (tr : list (op * output)) (r : resolver)
+           (bs : list (nat * list binding)) (res : list (name * nat)) : Prop :=
+  let log := pubs tr in
+  Forall2 (fun m ib =>
+             fst ib = lid m /\
+             import_bindings (snd ib) = map (fun n => (n, wanted log r n)) (imports_of (lmd m)) /\
+             forall n, In n (imports_of (lmd m)) -> wanted log r n <> None)
+          (pending tr) bs /\
+  forall n a, In (n, a) res -> last_def log n = None /\ r n = Some a.
 
 (* what a completed or failed link step must look like, given the trace before it *)
 Definition link_step_spec (tr : list (op * output)) (r : resolver) (out : output) : Prop :=
   let log := pubs tr in
   match out with
-  | OLinked bs res =>
-      (* one binding list per module loaded since the previous link, in load order; every import
-         of every such module is bound to the definition loaded last before the step, else to
-         the resolver's address *)
-      Forall2 (fun m ib =>
-                 fst ib = lid m /\
-                 import_bindings (snd ib) = map (fun n => (n, wanted log r n)) (imports_of (lmd m)) /\
-                 forall n, In n (imports_of (lmd m)) -> wanted log r n <> None)
-              (pending tr) bs /\
-      (* the resolver is consulted only for names nobody defined, and its answers are kept *)
+  | OLinked bs res => bound_spec tr r bs res
+  | OLinkFailed res =>
+      (* reported as undeclared_op_ref: some import of some pending module has neither a definition
+         nor a resolver address; what the resolver supplied before is as above *)
+      (exists m n, In m (pending tr) /\ In n (imports_of (lmd m)) /\ wanted log r n = None) /\
       forall n a, In (n, a) res -> last_def log n = None /\ r n = Some a
-  | OErr e =>
-      e = EUndeclaredOpRef /\
-      exists m n, In m (pending tr) /\ In n (imports_of (lmd m)) /\ wanted log r n = None
+  | _ => False
+  end.
+
+(* the same for MIR_link with a NULL set_interface *)
+Definition bind_step_spec (tr : list (op * output)) (r : resolver) (out : output) : Prop :=
+  match out with
+  | OBound bs res => bound_spec tr r bs res
+  | OLinkFailed res => link_step_spec tr r (OLinkFailed res)
   | _ => False
   end.
 
 Lemma bind_spec_wanted e log r n : agree e log -> bind_spec e r n = wanted log r n.
 Proof. intro H. unfold bind_spec, wanted. rewrite H. reflexivity. Qed.
 
-Lemma link_step_correct s tr r :
-  Inv s tr -> dead s = false -> link_step_spec tr r (snd (step s (Link r))).
+Lemma link_mods_bound s tr r e' res bs :
+  agree (env s) (pubs tr) -> to_link s = pending tr ->
+  link_mods r (to_link s) (env s) [] = inl (e', res, bs) -> bound_spec tr r bs res.
+Proof.
+  intros Ha Hq Hl.
+  destruct (link_mods_ok _ _ _ _ _ _ _ Hl) as (new & A1 & A2 & A3 & A4 & A5).
+  simpl in A1. subst res. unfold bound_spec. rewrite <- Hq. split.
+  - eapply Forall2_imp; [|exact A5]. intros m ib (C1 & C2 & C3). split; [exact C1|]. split.
+    + rewrite C2. apply map_ext. intro n. f_equal. apply bind_spec_wanted. exact Ha.
+    + intros n Hn'. rewrite <- (bind_spec_wanted (env s) _ r n Ha). apply C3. exact Hn'.
+  - intros n a Hin. destruct (A3 _ _ Hin) as [B1 B2]. split; [rewrite <- Ha; exact B1 | exact B2].
+Qed.
+
+Lemma link_mods_failed s tr r e1 res :
+  agree (env s) (pubs tr) -> to_link s = pending tr ->
+  link_mods r (to_link s) (env s) [] = inr (e1, res) -> link_step_spec tr r (OLinkFailed res).
+Proof.
+  intros Ha Hq Hl.
+  destruct (link_mods_err _ _ _ _ _ _ Hl) as (new & A1 & A2 & A3 & A4 & m & n & B1 & B2 & B3).
+  simpl in A1. subst res. simpl. split.
+  - exists m, n. rewrite <- Hq. split; [exact B1|]. split; [exact B2|].
+    rewrite <- (bind_spec_wanted (env s) _ r n Ha). exact B3.
+  - intros k a Hin. destruct (A3 _ _ Hin) as [C1 C2]. split; [rewrite <- Ha; exact C1 | exact C2].
+Qed.
+
+Lemma link_step_correct am s tr r :
+  Inv s tr -> dead s = false -> link_step_spec tr r (snd (step am s (Link r))).
 Proof.
   intros HI Hd. destruct (HI Hd) as (Ha & Hn & Hq & Hr).
   unfold step. rewrite Hd.
-  destruct (link_mods r (to_link s) (env s) []) as [[[e' res] bs]|x] eqn:Hl; simpl.
-  - destruct (link_mods_ok _ _ _ _ _ _ _ Hl) as (new & A1 & A2 & A3 & A4 & A5).
-    simpl in A1. subst res. rewrite <- Hq. split.
-    + eapply Forall2_imp; [|exact A5]. intros m ib (C1 & C2 & C3). split; [exact C1|]. split.
-      * rewrite C2. apply map_ext. intro n. f_equal. apply bind_spec_wanted. exact Ha.
-      * intros n Hn'. rewrite <- (bind_spec_wanted (env s) _ r n Ha). apply C3. exact Hn'.
-    + intros n a Hin. destruct (A3 _ _ Hin) as [B1 B2]. split; [rewrite <- Ha; exact B1 | exact B2].
-  - destruct (link_mods_err _ _ _ _ _ Hl) as [E (m & n & B1 & B2 & B3)].
-    split; [exact E|]. exists m, n. rewrite <- Hq. split; [exact B1|]. split; [exact B2|].
-    rewrite <- (bind_spec_wanted (env s) _ r n Ha). exact B3.
+  destruct (link_mods r (to_link s) (env s) []) as [[[e' res] bs]|[e1 res1]] eqn:Hl; simpl.
+  - eapply link_mods_bound; eauto.
+  - apply (link_mods_failed s tr r e1 res1 Ha Hq Hl).
 Qed.
 
-(* every Link step of every history *)
+Lemma bind_step_correct am s tr r :
+  Inv s tr -> dead s = false -> bind_step_spec tr r (snd (step am s (LinkNoIface r))).
+Proof.
+  intros HI Hd. destruct (HI Hd) as (Ha & Hn & Hq & Hr).
+  unfold step. rewrite Hd.
+  destruct (link_mods r (to_link s) (env s) []) as [[[e' res] bs]|[e1 res1]] eqn:Hl; simpl.
+  - eapply link_mods_bound; eauto.
+  - apply (link_mods_failed s tr r e1 res1 Ha Hq Hl).
+Qed.
+
+(* every Link step of every history - including histories in which earlier loads were rejected
+   and earlier links failed *)
 Lemma link_binds_latest_proof : forall (p : list op) (r : resolver) (rest : list op),
   exists out tail,
     snd (run (p ++ Link r :: rest)) = snd (run p) ++ (Link r, out) :: tail /\
@@ -532,11 +643,36 @@ Lemma link_binds_latest_proof : forall (p : list op) (r : resolver) (rest : list
 Proof.
   intros p r rest. unfold run. rewrite run_from_app.
   pose proof (run_inv p) as HI. unfold run in HI.
-  destruct (run_from init p) as [s1 t1] eqn:H1. simpl in HI. simpl run_from.
-  destruct (step s1 (Link r)) as [s2 out] eqn:Hs.
-  destruct (run_from s2 rest) as [s3 t3]. simpl.
+  destruct (run_from true init p) as [s1 t1] eqn:H1. simpl in HI. simpl run_from.
+  destruct (step true s1 (Link r)) as [s2 out] eqn:Hs.
+  destruct (run_from true s2 rest) as [s3 t3]. simpl.
   exists out, t3. split; [reflexivity|]. intro Hd.
-  pose proof (link_step_correct s1 t1 r HI Hd) as H. rewrite Hs in H. exact H.
+  pose proof (link_step_correct true s1 t1 r HI Hd) as H. rewrite Hs in H. exact H.
+Qed.
+
+Lemma link_binds_latest_all_proof : forall (p : list op) (r : resolver) (rest : list op),
+  Forall builds p ->
+  exists out tail,
+    snd (run (p ++ Link r :: rest)) = snd (run p) ++ (Link r, out) :: tail /\
+    link_step_spec (snd (run p)) r out.
+Proof.
+  intros p r rest Hb. destruct (link_binds_latest_proof p r rest) as (out & tail & H1 & H2).
+  exists out, tail. split; [exact H1|]. apply H2. apply alive_proof. exact Hb.
+Qed.
+
+Lemma nulliface_binds_latest_proof : forall (p : list op) (r : resolver) (rest : list op),
+  Forall builds p ->
+  exists out tail,
+    snd (run (p ++ LinkNoIface r :: rest)) = snd (run p) ++ (LinkNoIface r, out) :: tail /\
+    bind_step_spec (snd (run p)) r out.
+Proof.
+  intros p r rest Hb. unfold run. rewrite run_from_app.
+  pose proof (run_inv p) as HI. pose proof (alive_proof p Hb) as Hd. unfold run in HI, Hd.
+  destruct (run_from true init p) as [s1 t1] eqn:H1. simpl in HI, Hd. simpl run_from.
+  destruct (step true s1 (LinkNoIface r)) as [s2 out] eqn:Hs.
+  destruct (run_from true s2 rest) as [s3 t3]. simpl.
+  exists out, t3. split; [reflexivity|].
+  pose proof (bind_step_correct true s1 t1 r HI Hd) as H. rewrite Hs in H. exact H.
 Qed.
 
 (* ------------------------------------------------------------ redefinition *)
@@ -545,9 +681,9 @@ Definition redefines (log : list (name * defref)) (id : nat) (m : modl) : Prop :
   exists l1 it l2, mitems m = l1 ++ it :: l2 /\ iexp it = true /\ ik it = KFunc /\
                    last_def (log ++ exported_from id l1 0) (iname it) <> None.
 
-Lemma load_step_out s ds m :
+Lemma load_step_out am s ds m :
   dead s = false -> build ds = inl m ->
-  snd (step s (Load ds))
+  snd (step am s (Load ds))
   = match snd (load_items (nloads s) (mitems m) 0 (env s) (redef s)) with
     | Some x => OErr x
     | None => OOk
@@ -560,7 +696,7 @@ Qed.
 Lemma link_redef_rejected_proof : forall (h : list op) (ds : list decl) (m : modl),
   let s := fst (run h) in
   let tr := snd (run h) in
-  let out := snd (step s (Load ds)) in
+  let out := snd (step true s (Load ds)) in
   dead s = false -> build ds = inl m ->
   (out = OOk \/ out = OErr ERepeatedDecl) /\
   (out = OErr ERepeatedDecl <-> redef_of tr = false /\ redefines (pubs tr) (loads_in tr) m).
@@ -568,7 +704,7 @@ Proof.
   intros h ds m s tr out Hd Hb.
   pose proof (run_inv h) as HI. destruct (HI Hd) as (Ha & Hn & Hq & Hr).
   fold s in Ha, Hn, Hq, Hr. fold tr in Ha, Hn, Hq, Hr.
-  unfold out. rewrite (load_step_out s ds m Hd Hb).
+  unfold out. rewrite (load_step_out true s ds m Hd Hb).
   pose proof (load_items_err_kind (nloads s) (mitems m) 0 (env s) (redef s)) as Hk.
   pose proof (load_items_rejects (nloads s) (mitems m) 0 (env s) (redef s) (pubs tr) Ha) as Hj.
   unfold redefines. rewrite <- Hr, <- Hn.
@@ -579,30 +715,106 @@ Proof.
     intro H. apply Hj in H. discriminate.
 Qed.
 
+(* a rejected load changes nothing but the count of modules created: the table of globals, the
+   queue, the permission and the recorded bindings are as before *)
+Lemma rejected_load_no_effect_proof : forall s ds e,
+  dead s = false -> (exists m, build ds = inl m) ->
+  snd (step true s (Load ds)) = OErr e ->
+  let s' := fst (step true s (Load ds)) in
+  env s' = env s /\ to_link s' = to_link s /\ redef s' = redef s /\ linked s' = linked s /\
+  dead s' = false.
+Proof.
+  intros s ds e Hd [m Hb]. unfold step. rewrite Hd, Hb.
+  destruct (load_items (nloads s) (mitems m) 0 (env s) (redef s)) as [e' [x|]]; simpl.
+  - intros _. repeat split.
+  - discriminate.
+Qed.
+
+(* hence every later step behaves as if the rejected load had not been attempted, up to the
+   numbering of modules: stated on the trace - a rejected load contributes nothing to the log of
+   definitions nor to the queue *)
+Lemma rejected_load_invisible_proof : forall tr ds e,
+  pubs (tr ++ [(Load ds, OErr e)]) = pubs tr /\ pending (tr ++ [(Load ds, OErr e)]) = pending tr /\
+  redef_of (tr ++ [(Load ds, OErr e)]) = redef_of tr.
+Proof.
+  intros tr ds e. rewrite pubs_snoc, pending_snoc, redef_snoc. simpl. rewrite app_nil_r. auto.
+Qed.
+
+(* a failed link keeps the queue and the recorded bindings; the table of globals only gains the
+   addresses the resolver supplied (for names that had no definition) *)
+Lemma failed_link_effect_proof : forall s r res,
+  snd (step true s (Link r)) = OLinkFailed res ->
+  let s' := fst (step true s (Link r)) in
+  to_link s' = to_link s /\ linked s' = linked s /\ redef s' = redef s /\ dead s' = false /\
+  env s' = apply_new (env s) res /\
+  (forall n, assoc (env s) n <> None -> assoc (env s') n = assoc (env s) n).
+Proof.
+  intros s r res. unfold step. destruct (dead s); [discriminate|].
+  destruct (link_mods r (to_link s) (env s) []) as [[[e' res'] bs]|[e1 res1]] eqn:Hl; simpl; [discriminate|].
+  intro H. inversion H; subst res1.
+  destruct (link_mods_err _ _ _ _ _ _ Hl) as (new & A1 & A2 & A3 & A4 & _). simpl in A1. subst new.
+  repeat split; auto.
+  intros n Hn. specialize (A4 n). unfold bind_spec in A4.
+  destruct (assoc (env s) n) eqn:E; [|contradiction].
+  destruct (assoc e1 n) eqn:E1; [exact A4|].
+  exfalso. apply (apply_new_keeps res n (env s)); [rewrite E; discriminate | rewrite <- A2; exact E1].
+Qed.
+
+(* ------------------------------------------------------------ the two variants *)
+
+Definition is_rejection (x : op * output) : bool :=
+  match x with (Load _, OErr _) => true | _ => false end.
+
+Lemma step_variants s o :
+  is_rejection (o, snd (step true s o)) = false -> step false s o = step true s o.
+Proof.
+  unfold step. destruct (dead s); [reflexivity|].
+  destruct o as [ds|n a|b|r|r]; try reflexivity.
+  destruct (build ds) as [m|e]; [|simpl; discriminate].
+  destruct (load_items (nloads s) (mitems m) 0 (env s) (redef s)) as [e' [x|]]; simpl; [discriminate|reflexivity].
+Qed.
+
+(* the pinned tree and the behaviour the property describes agree on every history in which no
+   load is rejected *)
+Lemma variants_agree_proof : forall h,
+  existsb is_rejection (snd (run h)) = false -> run_pinned h = run h.
+Proof.
+  unfold run, run_pinned. generalize init as s0. intros s0 h. revert s0.
+  induction h as [|o h IH]; intros s H; simpl in *; [reflexivity|].
+  destruct (step true s o) as [s1 out] eqn:Hs.
+  destruct (run_from true s1 h) as [s2 t2] eqn:Hr. simpl in H.
+  apply orb_false_iff in H. destruct H as [H1 H2].
+  assert (E : step false s o = step true s o).
+  { apply step_variants. rewrite Hs. exact H1. }
+  rewrite E, Hs. specialize (IH s1). rewrite Hr in IH. simpl in IH. rewrite (IH H2). reflexivity.
+Qed.
+
 (* ------------------------------------------------------------ stability of earlier bindings *)
 
-Lemma step_linked_prefix s o : exists ext, linked (fst (step s o)) = linked s ++ ext.
+Lemma step_linked_prefix am s o : exists ext, linked (fst (step am s o)) = linked s ++ ext.
 Proof.
   unfold step. destruct (dead s); [exists []; simpl; rewrite app_nil_r; reflexivity|].
-  destruct o as [ds|n a|b|r].
+  destruct o as [ds|n a|b|r|r].
   - destruct (build ds) as [m|e].
     + destruct (load_items (nloads s) (mitems m) 0 (env s) (redef s)) as [e' [x|]];
         exists []; simpl; rewrite app_nil_r; reflexivity.
     + exists []; simpl; rewrite app_nil_r; reflexivity.
   - exists []; simpl; rewrite app_nil_r; reflexivity.
   - exists []; simpl; rewrite app_nil_r; reflexivity.
-  - destruct (link_mods r (to_link s) (env s) []) as [[[e' res] bs]|x].
+  - destruct (link_mods r (to_link s) (env s) []) as [[[e' res] bs]|[e1 res1]].
     + exists bs. reflexivity.
     + exists []; simpl; rewrite app_nil_r; reflexivity.
+  - destruct (link_mods r (to_link s) (env s) []) as [[[e' res] bs]|[e1 res1]];
+      exists []; simpl; rewrite app_nil_r; reflexivity.
 Qed.
 
-Lemma run_from_linked_prefix h : forall s, exists ext, linked (fst (run_from s h)) = linked s ++ ext.
+Lemma run_from_linked_prefix am h : forall s, exists ext, linked (fst (run_from am s h)) = linked s ++ ext.
 Proof.
   induction h as [|o h IH]; intro s; simpl.
   - exists []. rewrite app_nil_r. reflexivity.
-  - destruct (step s o) as [s1 out] eqn:Hs.
-    destruct (step_linked_prefix s o) as [e1 H1]. rewrite Hs in H1. simpl in H1.
-    destruct (IH s1) as [e2 H2]. destruct (run_from s1 h) as [s2 t2]. simpl in *.
+  - destruct (step am s o) as [s1 out] eqn:Hs.
+    destruct (step_linked_prefix am s o) as [e1 H1]. rewrite Hs in H1. simpl in H1.
+    destruct (IH s1) as [e2 H2]. destruct (run_from am s1 h) as [s2 t2]. simpl in *.
     exists (e1 ++ e2). rewrite H2, H1, app_assoc. reflexivity.
 Qed.
 
@@ -610,17 +822,17 @@ Lemma link_earlier_bindings_stable_proof : forall (h later : list op),
   exists ext, linked (fst (run (h ++ later))) = linked (fst (run h)) ++ ext.
 Proof.
   intros h later. unfold run. rewrite run_from_app.
-  destruct (run_from init h) as [s1 t1]. simpl.
-  destruct (run_from_linked_prefix later s1) as [ext H].
-  destruct (run_from s1 later) as [s2 t2]. simpl in *. exists ext. exact H.
+  destruct (run_from true init h) as [s1 t1]. simpl.
+  destruct (run_from_linked_prefix true later s1) as [ext H].
+  destruct (run_from true s1 later) as [s2 t2]. simpl in *. exists ext. exact H.
 Qed.
 
 (* a completed link records exactly the bindings it reported, after those of earlier links *)
-Lemma link_records_bindings_proof : forall s r bs res,
-  snd (step s (Link r)) = OLinked bs res -> linked (fst (step s (Link r))) = linked s ++ bs.
+Lemma link_records_bindings_proof : forall am s r bs res,
+  snd (step am s (Link r)) = OLinked bs res -> linked (fst (step am s (Link r))) = linked s ++ bs.
 Proof.
-  intros s r bs res. unfold step. destruct (dead s); [discriminate|].
-  destruct (link_mods r (to_link s) (env s) []) as [[[e' res'] bs']|x]; simpl; [|discriminate].
+  intros am s r bs res. unfold step. destruct (dead s); [discriminate|].
+  destruct (link_mods r (to_link s) (env s) []) as [[[e' res'] bs']|[e1 res1]]; simpl; [|discriminate].
   intro H. inversion H; subst. reflexivity.
 Qed.
 
@@ -652,8 +864,8 @@ Lemma second_function_export_proof : forall (h : list op) (ds : list decl) (m : 
   dead s = false -> build ds = inl m ->
   In (n, DMod k i KFunc) (pubs tr) ->
   In it (mitems m) -> ik it = KFunc -> iexp it = true -> iname it = n ->
-  (snd (step s (Load ds)) = OErr ERepeatedDecl <-> redef_of tr = false) /\
-  (redef_of tr = true -> snd (step s (Load ds)) = OOk).
+  (snd (step true s (Load ds)) = OErr ERepeatedDecl <-> redef_of tr = false) /\
+  (redef_of tr = true -> snd (step true s (Load ds)) = OOk).
 Proof.
   intros h ds m n k i it s tr Hd Hb Hpub Hin Hk He Hn.
   destruct (link_redef_rejected_proof h ds m Hd Hb) as [Hcases Hiff]. fold s tr in Hcases, Hiff.
